@@ -331,7 +331,7 @@ def shrink_case(ctx, cid, c, first_failure=None, budget=120):
     return [c[0], c[1], c[2], " ".join(w + body + q)]
 
 
-def run_impl(ctx, seed, n, sub, replay_file=None, engines="mem", nb=0, ne=0, nm=0, nes=0):
+def run_impl(ctx, seed, n, sub, replay_file=None, engines="mem", nb=0, ne=0, nm=0, nes=0, nm0=0):
     d = os.path.join(ctx.run_dir, sub)
     shutil.rmtree(d, ignore_errors=True)
     os.makedirs(d)
@@ -340,7 +340,7 @@ def run_impl(ctx, seed, n, sub, replay_file=None, engines="mem", nb=0, ne=0, nm=
     if replay_file:
         cmd = "%s -replay %s -out %s -port %d" % (binp, replay_file, d, port)
     else:
-        cmd = "%s -seed %d -n %d -nm %d -nb %d -ne %d -nes %d -engines %s -out %s -port %d" % (binp, seed, n, nm, nb, ne, nes, engines, d, port)
+        cmd = "%s -seed %d -n %d -nm %d -nm0 %d -nb %d -ne %d -nes %d -engines %s -out %s -port %d" % (binp, seed, n, nm, nm0, nb, ne, nes, engines, d, port)
     rc, out, dt = sh(cmd, cwd=d, timeout=3000)
     if rc == 3:
         # the live server (child process) did not come up or died: time/port dependent, one retry
@@ -355,6 +355,10 @@ def run_impl(ctx, seed, n, sub, replay_file=None, engines="mem", nb=0, ne=0, nm=
     rc2, out2, dt2 = sh("%s < cases.tsv > model.out" % vlib.modelrun_path("Sync"), cwd=d, timeout=1200)
     if rc2 != 0:
         return None, out2
+    # the receiver that is not syncer-only: the conflict model (coq/Sync/Conflict.v) on its own files; kind M of that
+    # class has no model line (direct oracle only)
+    rc3, out3, dt3 = sh("grep -P '^[^\\t]*\\tA\\t' cases_m0.tsv > cases_m0A.tsv; %s < cases_m0A.tsv > model_m0.out"
+                        % vlib.modelrun_path("Sync"), cwd=d, timeout=1200)
     return d, ""
 
 
@@ -365,7 +369,7 @@ def run(ctx):
         log("BUILD FAILED (harness sync):\n" + out[-3000:])
         raise SystemExit(2)
     vlib.regen_consts("Sync", "sync")
-    proofs_ok, info = ctx.check_proofs(make_targets=["Sync/Proofs.vo", "Sync/ProofsSender.vo", "Properties/C19.vo"],
+    proofs_ok, info = ctx.check_proofs(make_targets=["Sync/Proofs.vo", "Sync/ProofsSender.vo", "Sync/ProofsConflict.vo", "Properties/C19.vo"],
                                        gate_paths=["Sync", "Properties/C19"])
     mok, mout, _ = vlib.model_build("Sync")
     if not mok:
@@ -391,16 +395,16 @@ def run(ctx):
                             f.write(line if line.endswith("\n") else line + "\n")
             runs.append(dict(sub="corpus", replay=cf))
         if quick:
-            runs.append(dict(sub="fresh", n=330, nm=30, nb=6, ne=6, nes=1, engines="mem"))
+            runs.append(dict(sub="fresh", n=320, nm=30, nm0=40, nb=6, ne=6, nes=1, engines="mem"))
         else:
-            runs.append(dict(sub="fresh", n=4000, nm=300, nb=110, ne=50, nes=8, engines="mem,pebble,rocksdb"))
+            runs.append(dict(sub="fresh", n=4000, nm=300, nm0=400, nb=110, ne=50, nes=8, engines="mem,pebble,rocksdb"))
             runs.append(dict(sub="fresh-pebble-live", n=0, nb=30, ne=15, engines="pebble"))
 
     all_mism, all_fail, total, evals, hist_all, samples, distinct = [], [], 0, 0, {}, [], set()
     m0_fail = []
     for r in runs:
         d, err = run_impl(ctx, ctx.seed, r.get("n", 0), r["sub"], replay_file=r.get("replay"),
-                          engines=r.get("engines", "mem"), nb=r.get("nb", 0), ne=r.get("ne", 0), nm=r.get("nm", 0), nes=r.get("nes", 0))
+                          engines=r.get("engines", "mem"), nb=r.get("nb", 0), ne=r.get("ne", 0), nm=r.get("nm", 0), nes=r.get("nes", 0), nm0=r.get("nm0", 0))
         if d is None and err.startswith("INCONCLUSIVE") and r.get("nb", 0) > 0 and not r.get("replay"):
             ctx.notes.append("live server inconclusive twice (start/ports); live cases of run %s skipped" % r["sub"])
             if r.get("n", 0) == 0:
@@ -427,6 +431,15 @@ def run(ctx):
             c0 = parse_cases(m0c)
             i0, _ = vlib.read_out(os.path.join(d, "impl_m0.out"))
             m0_fail += oracle_m0(c0, i0)
+            # correspondence of the conflict model with the real code (kind A lines)
+            ia = os.path.join(d, "impl_m0A.out")
+            with open(ia, "w") as f:
+                for cid0, c00 in c0.items():
+                    if c00[0] == "A" and cid0 in i0:
+                        f.write("%s\t%s\n" % (cid0, i0[cid0]))
+            mism0, cnt0 = vlib.diff_outputs(ia, os.path.join(d, "model_m0.out"))
+            all_mism += [(m[0], m[1], m[2]) for m in mism0]
+            total += cnt0
             hist_all["class_m0"] = hist_all.get("class_m0", 0) + len(c0)
     evals = hist_all.get("ops", 0)
 
